@@ -54,7 +54,9 @@ QS = f"{ESC}5[Cc]"
 # Any Unicode codepoint except for \ or '. Used for UTF-8 chars inside single
 # quotes hence the need for the escape characters and a way to escape a
 # a backslash.
-QUTF8 = r"[^'\\]+"
+# This matches a single char as DSTRING already repeats it, a nested
+# quantifier makes a failing match take exponential time.
+QUTF8 = r"[^'\\]"
 DSTRING = f"({QS}|{QQ}|{QUTF8})+"
 QDSTRING = f"{SQUOTE}{DSTRING}{SQUOTE}"
 QDSTRINGLIST = f"({QDSTRING}({SP}{QDSTRING})*)?"
